@@ -74,6 +74,7 @@ def _task(contract_idx, prop, tier, repo, budget_scale, conn):
         out['inputs'] = info['inputs']
         out['warn_calls'] = info['warn_calls']
         out['axioms'] = sorted(set(n[1] for n in info['notes'] if n[0] == 'axiom'))
+        out['lemmas'] = sorted(set(n[1] for n in info['notes'] if n[0] == 'lemma'))
         # vacuity: at least one completed path with satisfiable hypotheses
         reach = {'sat': 0, 'unsat': 0, 'unknown': 0}
         for p in res.paths[:50]:
@@ -275,6 +276,7 @@ def main(argv=None):
     all_inlined = set()
     all_summ = set()
     axioms = set()
+    lemmas_used = set()
     vacuous = []
     pending_replays = []
     for r in results:
@@ -297,6 +299,7 @@ def main(argv=None):
         all_inlined |= set(r.get('inlined', []))
         all_summ |= set(r.get('summarised', []))
         axioms |= set(r.get('axioms', []))
+        lemmas_used |= set(r.get('lemmas', []))
         funcs[ct.target] = {'sha': source.function_sha(ct.target), 'level': ct.level}
         cdis = 0
         for rec in r['obligations']:
@@ -350,15 +353,36 @@ def main(argv=None):
         except Exception as e:
             bounded = {'error': str(e)}
         if bounded and bounded.get('failures'):
-            for f in bounded['failures'][:3]:
+            # only contracts written for floats (`_bounded_only`) decide; failures of clauses that
+            # are proved over the reals are rounding effects and are reported, not violations
+            bo = set(c.ident() for c in contracts if c.params.get('_bounded_only'))
+            seen_b = set()
+            for f in bounded['failures']:
+                if f['contract'] not in bo:
+                    continue
+                key = (f['contract'], f['clause'])
+                if key in seen_b:
+                    continue
+                seen_b.add(key)
+                d = os.path.join(OUT, 'replay', prop)
+                os.makedirs(d, exist_ok=True)
+                ctb = [c for c in contracts if c.ident() == f['contract']][0]
+                path = os.path.join(d, ('%s__%s' % key).replace('/', '__').replace('[', '(').replace(']', ')') + '.json')
+                with open(path, 'w') as fh:
+                    json.dump({'property': prop, 'obligation': '%s/%s' % key, 'clause': f['clause'], 'kind': 'bounded',
+                               'contract_module': ctb.fn.__module__, 'contract_fn': ctb.fn.__name__, 'params': ctb.params,
+                               'target': ctb.target, 'inputs': f['inputs'], 'solver': 'bounded stand-in (concrete evaluation on the real code)',
+                               'repo': a.repo, 'replay_result': {'reproduced': True, 'failed_clauses': f['failed'], 'exception': f['exception']}},
+                              fh, indent=1, default=str)
                 kf = None
                 for k in known.get('findings', []):
-                    if k['property'] == prop and k['obligation'] == '%s/%s' % (f['contract'], f['clause']):
+                    if k['property'] == prop and k['obligation'] == '%s/%s' % key:
                         kf = k
                 if kf is not None:
-                    known_hits.append({'finding': kf, 'obligation': f['contract'] + '/' + f['clause'],
-                                       'replay': f.get('replay'), 'reproduced': True})
-                # bounded failures of clauses that are *proved* in R are float effects: reported, not violations
+                    known_hits.append({'finding': kf, 'obligation': '%s/%s' % key, 'replay': path, 'reproduced': True})
+                else:
+                    violations.append({'obligation': '%s/%s' % key, 'replay': path, 'reproduced': True, 'meta': None,
+                                       'backend': 'bounded', 'detail': f})
     wall = time.time() - t0
     status = 0
     if errors or vacuous:
@@ -379,6 +403,7 @@ def main(argv=None):
             'functions_under_contract': funcs,
             'functions_executed_in_place': sorted(all_inlined - set(funcs)),
             'callee_contracts_used_at_call_sites': sorted(all_summ),
+            'ghost_lemmas_used': sorted(lemmas_used),
             'backends': {k: {'count': v['count'], 'seconds': round(v['seconds'], 3)} for k, v in backends.items()},
             'per_contract': per_contract,
             'undecided': undecided, 'errors': errors, 'vacuous': vacuous,
